@@ -592,3 +592,109 @@ def install(lib):
     lib.loop_spec("LRUTrie.add_lru::while#0", LoopSpec(add_lru_inv0, havoc=havoc_add_lru, locals_=("i", "lru"), world=TKEYS + GHOSTS, prune=Wd.prune_dead_world_facts))
     lib.loop_spec("LRUTrie.add_lru::while#1", LoopSpec(add_lru_inv1, havoc=havoc_add_lru1, locals_=("i",), world=TKEYS + GHOSTS, prune=Wd.prune_dead_world_facts))
     return [LruIter(), Ensure(), AddLru()]
+
+
+# ============================================================================ add_lru as a callee, add_page
+def _addlru_apply(self, ex, p, recv, args, kw, ln):
+    """callers see add_lru through its contract: a new world related to the old one by
+    writer_frame, satisfying Inv, and a Fresh node spelling the LRU"""
+    flag = kw.get("flag_can_have_child_webentities", args[1] if len(args) > 1 else False)
+    for nm, f in Inv(p):
+        ex.oblige(p, "add_lru:pre:" + nm, f, ln, "pre")
+    lru = to_z3(args[0])
+    ex.oblige(p, "add_lru:pre:lru-is-the-query", lru == PRE(QL), ln, "pre")
+    ex.oblige(p, "add_lru:pre:at-least-one-stem", QL >= 1, ln, "pre")
+    q = p.fork()
+    saved_old = {k: v for k, v in q.w.items() if k.startswith("old:")}
+    for k in list(q.w):
+        if k.startswith("old:"):
+            del q.w[k]
+    snapshot_old(q)
+    for k_ in TKEYS + GHOSTS:
+        q.w[k_] = fresh(k_.replace(".", "_"), q.w[k_].sort())
+    q.assume(AL(q.w["T.size"]))
+    rb = fresh("added", INT)
+    store = q.obj(recv).f["storage"]
+    res = fresh_node_at(q, store, rb, "added")
+    for nm, f in AddLru.post(ex, q, res, flag):
+        q.assume(f)
+    N.assume_all(q, Inv(q))
+    # history: a fresh walk history object (its contents are specified by follow_lru's
+    # contract; add_lru's callers in this plan only use page_was_created)
+    hist = q.new_obj("LRUTrieWalkHistory", {"lru": args[0], "webentity": Opt(fresh("h_noweb", BOOL), fresh("h_we", INT)), "webentity_prefix": fresh("h_prefix", BYTES), "webentity_position": fresh("h_pos", INT), "webentity_creation_rules": q.new_obj("list", {"len": fresh("h_nrules", INT), "elem": lambda i: fresh("h_rule", INT)}), "page_was_created": False})
+    # keep the caller's own `old:` snapshot (if any) for its frame; expose this call's
+    # pre-state under `pre:`
+    for k in list(q.w):
+        if k.startswith("old:"):
+            q.w["pre:" + k[4:]] = q.w.pop(k)
+    for k_ in TKEYS + GHOSTS:
+        q.w["mid:" + k_] = q.w[k_]  # the state right after add_lru
+    q.w.update(saved_old)
+    Wd.prune_dead_world_facts(q)
+    q.mut += 1
+    return [(q, (res, hist))]
+
+
+AddLru.apply = _addlru_apply
+
+
+class AddPage(Contract):
+    """LRUTrie.add_page: the node spelling the LRU gets the page bit (and the crawled bit
+    when asked); page_was_created <=> it was not a page; no other bit, field or block
+    changes beyond what add_lru may change"""
+
+    qual = "LRUTrie.add_page"
+
+    def prepare(self, ex):
+        ex.node_write_hooks = [ghost_on_node_write]
+
+    def setups(self, ex):
+        p, w, store, trie = base()
+        lru = fresh("lru", BYTES)
+        p.assume(lru == PRE(QL))
+        p.assume(QL >= 1)
+        crawled = fresh("crawled", BOOL)
+        p.w["__crawled"] = crawled
+        snapshot_old(p)
+        yield p, trie, [lru], {"crawled": crawled}, "any"
+
+    def check(self, ex, p0, res, tag):
+        crawled = p0.w["__crawled"]
+        a = z3.Int("a")
+        for p1, kind, val in res:
+            if kind == "raise":
+                ex.oblige(p1, "raises-nothing(%s)" % val[0], False, val[1])
+                continue
+            node, hist = val
+            simp_world(p1)
+            w1 = TW(p1)
+            pre = TW(type("P", (), {"w": {k[4:]: v for k, v in p1.w.items() if k.startswith("mid:")}})())
+            rb = node_blk(p1, node)
+            for nm, f in is_fresh(ex, p1, node):
+                ex.oblige(p1, nm, f, None)
+            ex.oblige(p1, "result-spells-the-lru", z3.And(w1.head(rb), w1.path(rb) == QP(QL)), None)
+            ex.oblige(p1, "result-is-a-page", w1.flag(rb, PAGE), None)
+            # `mid:` is the state right after add_lru (same blocks, before the flag write)
+            was_page = pre.flag(rb, PAGE)
+            was_crawled = pre.flag(rb, CRAWLED)
+            ex.oblige(p1, "page_was_created<=>was-not-a-page", to_z3(ex.truth(p1.obj(hist).f["page_was_created"], p1)) == z3.Not(was_page), None)
+            ex.oblige(p1, "crawled-mark-is-monotone", w1.flag(rb, CRAWLED) == z3.Or(was_crawled, crawled), None)
+            for k in range(8):
+                if k not in (PAGE, CRAWLED):
+                    ex.oblige(p1, "result-bit%d-unchanged" % k, w1.flag(rb, k) == pre.flag(rb, k), None)
+            for f in FIELDS:
+                if f == "flags":
+                    continue
+                ex.oblige(p1, "after-add_lru:[%s]-unchanged" % f, p1.w["T." + f] == pre.p.w["T." + f], None)
+            ex.oblige(p1, "after-add_lru:other-blocks-flags-unchanged", z3.ForAll([a], z3.Implies(a != rb, w1.f("flags", a) == pre.f("flags", a))), None)
+            ex.oblige(p1, "after-add_lru:size-unchanged", p1.w["T.size"] == pre.p.w["T.size"], None)
+            for nm, f in Inv(p1):
+                ex.oblige(p1, "preserves:" + nm, f, None)
+
+
+_install_prev = install
+
+
+def install(lib):
+    cs = _install_prev(lib)
+    return cs + [AddPage()]
